@@ -113,7 +113,10 @@ def gen_cases(cfg, tier, seed):
     nsets = cfg.nsets[0] if tier == "quick" else cfg.nsets[1]
     kinds = cfg.kinds if tier == "quick" else cfg.kinds_thorough
     for kind in kinds:
-        sets = D.gen_sets(rnd, nsets, big=(tier != "quick" and cfg.big))
+        # the decoding-table kinds and XBW crash / hang on many inputs of the pinned tree (known findings): every such
+        # query costs a watchdog time-out, so they get a bounded share of the thorough tier
+        nk = min(nsets, 16) if (kind in DT_KINDS or kind == "XBW") else nsets
+        sets = D.gen_sets(rnd, nk, big=(tier != "quick" and cfg.big))
         for si, (shape, S) in enumerate(sets):
             if cfg.set_filter and not cfg.set_filter(kind, shape, S):
                 continue
